@@ -348,8 +348,23 @@ def run_c20(prop, tier, seed):
             for j, o in enumerate(orders):
                 allsch.append({"id": len(allsch) + 1, "cfg": {"NVB": 0}, "steps": [{"l": l} for l in o], "driver": "async",
                                "isolate": False, "nvb": 0, "src": "order#%d" % (j + 1)})
+        # the real wrappers over real agents against the simulated node: server answers ok / an error status / nothing
+        client_w = ["GetVBucketSeqNos", "GetFailOverLogs", "OpenStream", "CloseStream", "GetCollectionIDs"]
+        doc_w = ["Get", "CreateDocument", "UpdateDocument", "DeleteDocument", "UpsertXattrs", "GetXattrs", "CreatePath"]
+        nwire = 0
+        for wname in client_w + doc_w:
+            cases = [[{"a": "Submit", "ok": True}, {"a": "CbStart", "o": o}, {"a": "CbResolve"}, {"a": "CbSend"}, {"a": "Quiesce"}] for o in ("ok", "fail")]
+            if wname in doc_w or tier == "thorough":     # (a silent server costs the 60 s hard-coded in client.go)
+                cases.append([{"a": "Submit", "ok": True}, {"a": "Deadline"}, {"a": "Quiesce"}])
+            for o in cases:
+                allsch.append({"id": len(allsch) + 1, "cfg": {"NVB": 0, "wrapper": wname}, "steps": [{"l": l} for l in o], "driver": "wire",
+                               "isolate": True, "nvb": 0, "src": "wire:%s" % wname})
+                nwire += 1
         lines, summ = vlib.drive(vdrive, allsch, work, shards=8)
         bad, nev = vlib.monitor(lines, allsch, {"monitor": "MonAsync"}, work)
+        notrun = [t for t in lines if t.get("skipped")]
+        if notrun:
+            raise vlib.Machinery("wire runs could not be set up: %s" % [(t["l"], t["skipped"]) for t in notrun[:3]])
         results = {}
         for t in lines:
             for e in t.get("evs") or []:
@@ -369,17 +384,19 @@ def run_c20(prop, tier, seed):
         cov = {"states": r["distinct"], "transitions": r["generated"], "traces_validated_against_impl": len(allsch),
                "samples": [{"order": " ".join(vlib.lab(l) for l in o)} for o in orders[:4]],
                "orders": len(orders), "repetitions_of_each_order": reps, "returned_results": results,
+               "real_wrapper_runs_against_simulated_node": nwire,
                "observable_events_monitored_by_tlc": nev, "evaluations": len(allsch), "distinct_nontrivial": len(orders),
                "liveness_checked_by_tlc": ["Returns", "CallbackFinishes"], "vacuity": "unbuffered-signal variant refuted by TLC",
                "rule": "a case is an order of {submit, server outcome, the two statements of the completion callback, deadline}; "
                        "the caller's select is a real race, so every order is repeated"}
         evidence(prop, tier, seed, "model_checking", cov,
-                 ["the real couchbase.NewAsyncOp is driven through the pattern the wrappers of client.go / doc_op.go use (re-stated in the "
-                  "driver); the wrappers themselves need gocbcore agents (rig B)",
+                 ["the real couchbase.NewAsyncOp is driven statement by statement through the pattern the wrappers of client.go / doc_op.go use "
+                  "(re-stated in the driver); in addition every real wrapper (5 of client.go, 7 of doc_op.go) is called over real gocbcore agents "
+                  "against the simulated node answering ok / an error status / nothing (silent: doc_op.go always, client.go - 60 s - in thorough)",
                   "gocbcore invokes a pending operation's callback exactly once, from inside Cancel if the cancel wins (assumed)"],
                  time.time() - t0, len(viols))
         print("property=C20 tier=%s: TLC %d states of AsyncOp.tla (safety + liveness; unbuffered variant refuted); %d runs of %d orders on the "
-              "real AsyncOp; results %s; %d violations" % (tier, r["distinct"], len(allsch), len(orders), results, len(viols)))
+              "real AsyncOp + %d calls of the 12 real wrappers against the simulated node; results %s; %d violations" % (tier, r["distinct"], len(allsch) - nwire, len(orders), nwire, results, len(viols)))
         for dst, msg, src in viols[:10]:
             print("VIOLATION property=C20 replay=%s   (%s; %s)" % (dst, msg, src))
         return 1 if viols else 0
